@@ -24,6 +24,7 @@ LEVEL_TEXT = (
     "tuples are checked against the five laws. Complete over all relations of tree T1 for all subject/object pairs; sampled on larger graphs."
 )
 LEVEL_NOTE = "No reference model: only the laws stated in the property are assumed. Parent->direct-child imports are not generated."
+LEVEL_TEXT += ' Regex families are also evaluated with rule objects that first saw a smaller architecture.'
 RULE = (
     "an evaluation = one Rule.assert_applies; a case = one family (graph, subject filter, object filter); non-trivial = family on a "
     "non-empty import relation in which at least one rule passed and one failed; distinct = distinct (tree, relation, subject, object)"
